@@ -226,6 +226,17 @@ def run(tier, seed):
         if res["id"].startswith("ovt-task-task-0"):
             v.sample({"overtake_attempt": res["id"], "frames": [[f[0], f[1], f[2]] for f in frames], "overtaken": res["overtaken"]})
 
+    # ---- 2c. a session that is given a second input (the API accepts it): its stream must go on, not restart
+    d12 = [{"id": "second_input", "linked": False, "same_session": True, "no_provider": True,
+            "inputs": [json.dumps({"tool": "ls", "args": {"path": "."}}), json.dumps({"tool": "ls", "args": {"path": "."}})]}]
+    for res in run_harness("runs", d12, wd, "d12", shards=1, timeout=300):
+        fr = res["session_frames"][0] if res["session_frames"] else []
+        seqs = [f["seq"] for f in fr]
+        v.add_eval({"second_input": len(seqs)}, len(seqs) >= 4)
+        if seqs != list(range(len(seqs))):
+            v.violation(f"second input to one session: the stream's seqs are {seqs}", {"engine": "runs", "case": d12[0], "seqs": seqs},
+                        key="D12-second-input-restarts-seq")
+
     # ---- 3b. free-running clients through the real router, property-level trace validation
     nfree = 24 if thorough else 6
     fcases = [{"id": f"free{i}", "seed": seed * 1000 + i, "clients": 4 + (i % 5), "ops": 10 if not thorough else 16,
